@@ -13,15 +13,16 @@ Rec == ndJsonDeserialize(IOEnv.VERIF_TRACE)
 Items == IF IOEnv.VERIF_PROGS = "" THEN <<>> ELSE ndJsonDeserialize(IOEnv.VERIF_PROGS)
 
 VARIABLES l,        \* next event
-          eph,      \* <<twin, entry point>> -> token hash of the emitted function, as first seen
-          dig       \* item id -> digest of the whole expansion, as first seen (second process run must agree)
-tvars == <<l, eph, dig>>
+          eph       \* <<twin, entry point>> -> token hash of the emitted function, as first seen
+tvars == <<l, eph>>
 
 E == Rec[l]
-Known(id) == \E i \in 1..Len(Items) : Items[i].id = id
-ItemOf(id) == Items[CHOOSE i \in 1..Len(Items) : Items[i].id = id]
+(* events are indexed by the driver: E.ix = position of the item in Items (0: a real source of the repository),     *)
+(* E.prev = position in the trace of the previous event about the same item (the other process run; 0: none)        *)
+Known(id) == E.ix # 0
+ItemOf(id) == Items[E.ix]
 
-TInit == l = 1 /\ eph = <<>> /\ dig = <<>> /\ TLCSet(1, 1)
+TInit == l = 1 /\ eph = <<>> /\ TLCSet(1, 1)
 
 PropOfFamily(f) == CASE f = "ep" -> "C06" [] f = "pt" -> "C13" [] f = "fw" -> "C17" [] f = "gen" -> "C15" [] f = "rule" -> "C18" [] OTHER -> "C13"
 
@@ -69,6 +70,9 @@ PassChecks(e) ==
 TrExpand ==
     /\ l <= Len(Rec) /\ E.ev = "Expand"
     /\ Chk("BIND", "input_was_parsed", l, E.verdict # "badinput")
+    /\ Chk("BIND", "event_index_names_this_item", l,
+           /\ E.ix \in 0..Len(Items) /\ (E.ix # 0 => Items[E.ix].id = E.id)
+           /\ E.prev \in 0..(l - 1) /\ (E.prev # 0 => Rec[E.prev].id = E.id))
     /\ LET known == Known(E.id)
            fam == IF known THEN ItemOf(E.id).family ELSE "real"
            prop == PropOfFamily(fam)
@@ -79,15 +83,14 @@ TrExpand ==
           /\ Chk("C13", "expansion_never_crashes", l, E.verdict # "crash")
           /\ Chk("C13", "expanding_twice_in_one_process_gives_identical_output", l, E.deterministic)
           /\ Chk("C13", "expanding_in_another_process_gives_identical_output", l,
-                 (E.verdict = "clean" /\ E.id \in DOMAIN dig) => dig[E.id] = E.digest)
+                 (E.verdict = "clean" /\ E.prev # 0 /\ Rec[E.prev].verdict = "clean") => Rec[E.prev].digest = E.digest)
           /\ IF E.verdict = "clean" /\ E.parsed
              THEN /\ (fam = "ep" => EpChecks(ItemOf(E.id), E))
                   /\ (fam = "fw" => FwChecks(ItemOf(E.id), E, FwVariants))
                   /\ (fam = "gen" => GenChecks(ItemOf(E.id), E))
                   /\ (fam \in {"pt", "real", "fw", "gen"} => PassChecks(E))
                   /\ eph' = IF fam = "ep" THEN EpRemember(ItemOf(E.id), E) ELSE eph
-                  /\ dig' = IF E.id \in DOMAIN dig THEN dig ELSE dig @@ (E.id :> E.digest)
-             ELSE UNCHANGED <<eph, dig>>
+             ELSE UNCHANGED eph
     /\ l' = l + 1
     /\ TLCSet(1, l + 1)
 
